@@ -1,6 +1,6 @@
 import vlib, common
 
-RULE = 'crash: a child process applies a log on RocksDB and is killed (SIGKILL) immediately before / immediately after the store write of a chosen apply, or at a random instant under a real raft node; the parent reopens the data, checks the state equals a prefix applied exactly once (tables compared with a never-crashed twin), replays the log (each remaining entry applied once, applied ones refused), and verifies every snapshot acknowledged before the kill. fsm: lives with re-delivery compared with the Coq model. distinct = (workload, crash point)'
+RULE = 'crash: a child process applies a log on RocksDB and is killed (SIGKILL) immediately before / immediately after the store write of a chosen apply, or at a random instant under a real raft node; the parent reopens the data, checks the state equals a prefix applied exactly once (tables compared with a never-crashed twin), replays the log (each remaining entry applied once, applied ones refused), and verifies every snapshot acknowledged before the kill. fsm: lives with re-delivery compared with the Coq model. distinct = (workload, crash point) transfer: the crash image of a follower restored by state transfer reopens to the transferred state; failed store write on a running node.'
 CMDS = ['crash', 'fsm', 'transfer']
 CASES = {'fsm': ('run_fsm_cases', 'C07_recovery (Fsm/Fsm.v deliver vs consensus/fsm.go)')}
 
